@@ -110,7 +110,7 @@ E2E_TB = TB + ["loopback only; the nodes are the crates' own client::main()/serv
 
 PROPS["C01"] = {
     "level": "exploration",
-    "rule": "configuration matrix protocol x cipher (10) x client-server transport (5): quick = every protocol with two transports (rotating with the seed), thorough = all 50; per configuration 12/40 scripted flows over the four README local handshakes (SOCKS5 IPv4, SOCKS5 domain, HTTP CONNECT, plain HTTP) with seeded sizes 0..1 MiB per direction, write sizes 1..64 KiB, pauses, request/response and simultaneous streaming and every closing pattern, first one at a time then 8 at a time, every plain-tcp configuration and half of the tls/ws/wss ones behind a forwarder that re-cuts the client-server link into pieces of random size (finely, 1..8 bytes, over the first 256 bytes of each direction where the protocol heads live; Shadowsocks 2022 keeps its protocol-mandated first-read prefix whole), plus bursts of 24/64 concurrent flows and flows in which the application sends nothing and the target speaks first; oracles: positional streams at application and target (order, loss, duplication, corruption, cross-flow bytes), listener identity for the dialled address, completeness for the direction the closing pattern guarantees, end-of-stream, byte-identical plain-HTTP head, node panics and liveness; evaluations = flows; non-trivial = at least one payload byte verified or a symptom; distinct = distinct (configuration, flow)",
+    "rule": "configuration matrix protocol x cipher (10) x client-server transport (5): quick = every protocol with two transports (rotating with the seed), thorough = all 50; per configuration 16/100 scripted flows over the four README local handshakes (SOCKS5 IPv4, SOCKS5 domain, HTTP CONNECT, plain HTTP) with seeded sizes 0..300 KB (thorough: up to 4 MiB) per direction, write sizes 1..64 KiB, pauses, request/response and simultaneous streaming and every closing pattern, first one at a time then 8 at a time, every plain-tcp configuration and half of the tls/ws/wss ones behind a forwarder that re-cuts the client-server link into pieces of random size (finely, 1..8 bytes, over the first 256 bytes of each direction where the protocol heads live; Shadowsocks 2022 keeps its protocol-mandated first-read prefix whole), plus bursts of 24/64 concurrent flows (quick: every fourth configuration, thorough: all), 16/32 uploads of 64 KiB - 1 MiB that the application closes right after its last byte without reading, and flows in which the application sends nothing and the target speaks first; oracles: positional streams at application and target (order, loss, duplication, corruption, cross-flow bytes), listener identity for the dialled address, completeness for the direction the closing pattern guarantees, end-of-stream, byte-identical plain-HTTP head, node panics and liveness; evaluations = flows; non-trivial = at least one payload byte verified or a symptom; distinct = distinct (configuration, flow)",
     "assumptions": E2E_TB + ["the closing side's own bytes must arrive completely; the opposite direction only needs the prefix property after that moment (C15 semantics)", "README 'only IPv4': IPv6 targets are not part of the verdict"],
     "plan": [{"name": "relay", "check": "c01", "bin": "osv-e2e", "timeout": {"quick": 900, "thorough": 3600}}],
 }
